@@ -56,25 +56,14 @@ def histories(ctx, progs, per_prog):
     return out
 
 
-def run_histories(ctx, progs, defs, hs, cpu=5):
+def run_histories(ctx, progs, defs, hs, verdicts, cpu=5):
     hc, meta = [], []
     for (pidx, h) in hs:
         for sname, sv in rl.SOLVERS:
             hc.append(pg.case(progs[pidx].text, [rg.goal_text(a) for a in h], sv, "History", [("Cpu", cpu)]))
             meta.append((pidx, h, sname))
     res = logic.solve_cases(hc, timeout=900)
-    # oracle for every distinct (program, atom)
-    atoms = {}
-    for pidx, h in hs:
-        for a in h:
-            atoms.setdefault((pidx, a), None)
-    keys = list(atoms)
-    exprs = [(["D%d" % pidx], logic.ob("evalR %d D%d %s" % (rl.FUEL, pidx, sx.to_coq(rg.atom_model(a, progs[pidx]))))) for pidx, a in keys]
-    codes, fl = logic.coq_codes(ctx.work, "horc", defs, exprs, shard=max(20, len(exprs) // 16 + 1), imports=rl.IMPORTS)
-    if fl:
-        raise core.CheckFailure("coq evaluation of evalR (histories) failed: %s" % (fl[0],))
-    for k, c in zip(keys, codes):
-        atoms[k] = {0: False, 1: True}.get(c)
+    atoms = verdicts
     cnt = collections.Counter()
     suspects = []
     for (pidx, h, sname), r in zip(meta, res):
@@ -149,31 +138,35 @@ def run(ctx):
         ctx.violation({"kind": "proof", "broken": why}, no_input=True)
         return
     core.build_harness(bins=["solve", "rules"])
-    progs, cases, defs, _ = rl.main_pipeline(ctx, "auto", ctx.n(60, 1500), ctx.n(8, 12), "C05", cpu=ctx.n(4, 8))
+    progs, cases = rl.gen_programs(ctx, "auto", ctx.n(36, 1500), ctx.n(7, 12))
     # corpus programs ride along as additional programs
-    extra_cases = []
     for p, gs in corpus_cases():
         p.text, p.model = rg.to_text(p), rg.to_model(p)
         pidx = len(progs)
         progs.append(p)
-        defs["D%d" % pidx] = ("decls", p.model)
         for a in gs:
             c = rl.Case(pidx, p, a, "goal")
             c.text = rg.goal_text(a)
-            extra_cases.append(c)
-    rl.run_rules(extra_cases)
-    rl.compare_bodies(ctx, "cbod", defs, extra_cases)
-    rl.oracle(ctx, "corc", defs, extra_cases)
-    rl.run_solvers(extra_cases, cpu=5)
-    cases += extra_cases
-    cnt, fam, ctors = rl.judge(ctx, "C05", progs, cases, defs)
-
-    hs = histories(ctx, progs, ctx.n(2, 6))
-    # the F7 witness itself: A: Send then B: Send
+            cases.append(c)
+    hs = histories(ctx, progs[:-2], ctx.n(2, 6))
+    # the F7 witness itself (A: Send then B: Send), and the coinductive_unsound shapes in several orders
     cp = len(progs) - 2
     hs.append((cp, [("Send", (("adt", "A", ()),)), ("Send", (("adt", "B", ()),)), ("Send", (("adt", "X", ()),)), ("Send", (("adt", "Y", ()),))]))
     hs.append((cp + 1, [("C1", (("adt", "B", ()),)), ("C2", (("adt", "B", ()),)), ("C3", (("adt", "B", ()),)), ("C1", (("adt", "A", ()),)), ("C2", (("adt", "A", ()),))]))
-    hcnt = run_histories(ctx, progs, defs, hs, cpu=ctx.n(4, 8))
+    hs.append((cp + 1, [("C3", (("adt", "B", ()),)), ("C2", (("adt", "A", ()),)), ("C1", (("adt", "A", ()),)), ("C1", (("adt", "B", ()),))]))
+    # every history goal is also a fresh-solver case (gives its oracle verdict)
+    have = {(c.pidx, c.atom) for c in cases}
+    for pidx, h in hs:
+        for a in h:
+            if (pidx, a) not in have:
+                have.add((pidx, a))
+                c = rl.Case(pidx, progs[pidx], a, "history-goal")
+                c.text = rg.goal_text(a)
+                cases.append(c)
+    cases, defs = rl.main_pipeline(ctx, progs, cases, cpu=ctx.n(3, 8))
+    cnt, fam, ctors = rl.judge(ctx, "C05", progs, cases, defs)
+    verdicts = {(c.pidx, c.atom): c.oracle for c in cases}
+    hcnt = run_histories(ctx, progs, defs, hs, verdicts, cpu=ctx.n(3, 8))
 
     n_ver = cnt["oracle_true"] + cnt["oracle_false"]
     ctx.cov["rule"] = ("evaluations = (solver, program, goal) triples whose Unique/NoSolution answer was compared with the verified oracle "
@@ -185,8 +178,9 @@ def run(ctx):
     }
     ctx.cov["verdict_share"] = {"true": round(cnt["oracle_true"] / max(1, n_ver), 3), "false": round(cnt["oracle_false"] / max(1, n_ver), 3)}
     ctx.cov["clause_correspondence"] = {"equal": cnt["clauses_equal"], "mismatch": cnt["clause_mismatch"], "not_compared": cnt["clauses_not_compared"]}
-    ctx.cov["known_class_share"] = round(hcnt["known_F7"] / max(1, hcnt["history_goals"]), 4)
-    ctx.cov["known_class_hits"] = hcnt["known_F7"]
+    ctx.cov["known_class_share"] = {"F7 (share of history goals)": round(hcnt["known_F7"] / max(1, hcnt["history_goals"]), 4),
+                                    "F7q (share of fresh SLG answers)": round(cnt["known_F7q"] / max(1, n_ver), 4)}
+    ctx.cov["known_class_hits"] = {"F7": hcnt["known_F7"], "F7q": cnt["known_F7q"]}
     ctx.cov["inconclusive"] = (cnt["oracle_inconclusive"] + hcnt["oracle_inconclusive"] + cnt["ambiguous_near_max_size"]
                                + sum(v for k, v in list(cnt.items()) + list(hcnt.items()) if k.startswith("solver_")))
     ctx.cov["counters"] = {k: v for k, v in list(cnt.items()) + [("hist:" + k, v) for k, v in hcnt.items()]}
